@@ -22,7 +22,7 @@ func RunPerNode(e *Env) {
 	R.Rule = "part A: every configuration-level call type (QC*, Async*, Corr*, CorrStream*, Multi, MultiPN) with and without a per-node function (identity, per-node distinct payloads, skipping any subset incl. all nodes), n in 1..6: " +
 		"after quiescence each server's entry log holds exactly one entry per targeted (call, node) whose received request digest equals digest(f(req, id)) (or digest(req)), none for skipped nodes; a quorum function with threshold = targeted count must succeed, " +
 		"a never-quorum function must yield Incomplete with errors+replies = targeted; part B: with every handler gated shut (holding its connection), send-waiting Uni/Multi/MultiPN must return (hang rule); " +
-		"with no-send-waiting they must return while the node's sender goroutine is held at the snd.beforeWrite hook (before any write or confirmation exists); then the gates open and delivery is exactly once; distinct = case parameters"
+		"with no-send-waiting they must return while the node's sender goroutine is held at the snd.beforeWrite hook (before any write or confirmation exists); then the gates open and delivery is exactly once, also for messages sent (context.Background, 4 goroutines, buffered and unbuffered send queue) while other goroutines issue calls with already-ended contexts on the same nodes; distinct = case parameters"
 	R.Assume("digest covers every request field (call, seq, target, kind, script, pad)")
 	rng := e.Rand(6)
 	ncase := e.Pick(2000, 100000)
@@ -408,6 +408,95 @@ func runOnewayCase(e *Env, idx int, rng *rand.Rand) {
 		}
 	}
 	R.Count("oneway.cancel_after_return_calls", int64(k3))
+	// B4: concurrent senders using context.Background() while other goroutines issue calls whose context has already ended on
+	// the same nodes (such a call never touches the stream): every message of the former is delivered exactly once
+	optional := map[uint64]bool{}
+	{
+		ended, cancelEnded := context.WithCancel(context.Background())
+		cancelEnded()
+		const G, K = 4, 40
+		toks := make([][]uint64, G)
+		for g := range toks {
+			for k := 0; k < K; k++ {
+				tok := h.NewToken()
+				toks[g] = append(toks[g], tok)
+				if (g+k)%4 < 2 {
+					expected[g%n][tok] = true
+				} else {
+					for i := 0; i < n; i++ {
+						expected[i][tok] = true
+					}
+				}
+			}
+		}
+		var itoks []uint64
+		for k := 0; k < 600; k++ {
+			tok := h.NewToken()
+			itoks = append(itoks, tok)
+			optional[tok] = true
+		}
+		stop := make(chan struct{})
+		var intruders []*h.Task
+		for x := 0; x < 2; x++ {
+			x := x
+			intruders = append(intruders, h.Go("oneway:ended-context intruder", func() {
+				for k := x; k < len(itoks); k += 2 {
+					select {
+					case <-stop:
+						return
+					default:
+					}
+					req := &puppet.Req{Call: itoks[k], Seq: itoks[k], Kind: 6}
+					switch k % 5 {
+					case 0:
+						cl.Node(k%n).Uni(ended, req)
+					case 1:
+						cl.Cfg.Multi(ended, req, gorums.WithNoSendWaiting())
+					case 2:
+						cl.Node(k%n).RPC(ended, req)
+					case 3:
+						cl.Cfg.Multi(ended, req)
+					default:
+						cl.Node(k%n).Uni(ended, req, gorums.WithNoSendWaiting())
+					}
+				}
+			}))
+		}
+		var senders []*h.Task
+		for g := 0; g < G; g++ {
+			g := g
+			senders = append(senders, h.Go("oneway:background sender", func() {
+				for k, tok := range toks[g] {
+					req := &puppet.Req{Call: tok, Seq: tok, Kind: 6}
+					switch (g + k) % 4 {
+					case 0:
+						cl.Node(g%n).Uni(context.Background(), req)
+					case 1:
+						cl.Node(g%n).Uni(context.Background(), req, gorums.WithNoSendWaiting())
+					case 2:
+						cl.Cfg.Multi(context.Background(), req)
+					default:
+						cl.Cfg.Multi(context.Background(), req, gorums.WithNoSendWaiting())
+					}
+				}
+			}))
+		}
+		for _, t := range senders {
+			if hi := h.Await(t, e.W); hi.Verdict == h.Hung {
+				close(stop)
+				R.Violate("oneway-stalls:"+hi.Sig, "one-way calls to reachable nodes (context.Background) did not return while calls with ended contexts were issued on the same nodes: "+hi.Sig, map[string]any{"stack": hi.Stack, "others": hi.Others})
+				return
+			}
+		}
+		close(stop)
+		for _, t := range intruders {
+			if hi := h.Await(t, e.W); hi.Verdict == h.Hung {
+				R.Violate("oneway-stalls:"+hi.Sig, "a call with an ended context did not return: "+hi.Sig, map[string]any{"stack": hi.Stack})
+				return
+			}
+		}
+		R.Count("oneway.messages_sent_alongside_ended_context_calls", G*K)
+	}
 	deadline := time.Now().Add(e.W)
 	check := func() (missing, dup int) {
 		for i, s := range cl.Srvs {
@@ -421,7 +510,7 @@ func runOnewayCase(e *Env, idx int, rng *rand.Rand) {
 				}
 			}
 			for tok, c := range cnt {
-				if c > 1 || !expected[i][tok] {
+				if c > 1 || (!expected[i][tok] && !optional[tok]) {
 					dup++
 				}
 			}
